@@ -17,6 +17,7 @@ import Mathlib.Tactic.Abel
 import Mathlib.Tactic.LinearCombination
 import Mathlib.Tactic.Ring
 import Tsv.Proofs.C03Alg
+import Tsv.Proofs.BMPoints
 import Mathlib.Algebra.Order.Field.Basic
 
 namespace C03Model
@@ -500,6 +501,14 @@ theorem answered_final (hc : Sound c) {stF : State T V} {ta tb : T} {w u : V}
     have := answerSpec_refines o r2 hs
     rw [t2, t1]
     exact this
+
+/-- the (rounded) end points of every answered non-degenerate query are points of the final tree: "resolved times" are exactly the times
+that were end points of earlier queries (or split points) - `BMPoints.find_complete` then resolves every interval between them. -/
+theorem answered_pts (hc : Sound c) {stF : State T V} {ta tb : T} {w u : V}
+    (h : Answered (c := c) (o := o) a stF ta tb w u) (hlt : c.rnd ta < c.rnd tb) :
+    BMPoints.IsPt stF.tree (c.rnd ta) ∧ BMPoints.IsPt stF.tree (c.rnd tb) := by
+  obtain ⟨ps, hf, _, hwf⟩ := answered_final a hc h hlt
+  exact BMPoints.find_pts hwf hf
 
 end chain
 
